@@ -863,6 +863,19 @@ fn main() {
                 let fds = open_fds();
                 s.owned = vec![*fds.iter().filter(|f| **f > 2 && unsafe { libc::fcntl(**f, libc::F_GETFD) } != -1).max().unwrap()];
             }
+            // prior-state variation: the standard descriptors listed in args[4] (e.g. "012") are closed
+            // after the set-up, so that the operation's new descriptors are 0/1/2.  The driver keeps a
+            // high-numbered duplicate of stdout for its own result line and never touches stdio.
+            let mut result_fd = 1;
+            if let Some(list) = args.get(4) {
+                unsafe {
+                    result_fd = libc::fcntl(1, libc::F_DUPFD_CLOEXEC, 700);
+                    assert!(result_fd >= 700);
+                    for c in list.chars() {
+                        libc::close(c.to_digit(10).unwrap() as i32);
+                    }
+                }
+            }
             let owned = s.owned.iter().map(ToString::to_string).collect::<Vec<_>>().join(",");
             let begin = format!("MARK:{name}:begin:owned={owned}");
             let end = format!("MARK:{name}:end");
@@ -880,11 +893,13 @@ fn main() {
             }
             mark(&end);
             let l = json!({"scenario": name, "ok": ok, "handed": handed, "exact": exact, "err": err});
-            let mut o = std::io::stdout().lock();
-            writeln!(o, "{l}").unwrap();
+            let line = format!("{l}\n");
+            unsafe {
+                libc::write(result_fd, line.as_ptr().cast(), line.len());
+            }
         }
         _ => {
-            eprintln!("usage: fdops list | run <scenario> <tmpdir>");
+            eprintln!("usage: fdops list | run <scenario> <tmpdir> [stdio descriptors to close first, e.g. 012]");
             std::process::exit(2);
         }
     }
